@@ -106,14 +106,16 @@ CHECKS = {
                   'representation at any verbosity, rst formatting, fingerprint, deepcopy, pickle: verdict, recorded statistics (dictionary key sets '
                   'included) and input datasets are identical before and after; evaluating twice gives identical results.',
              design='DESIGN.md section 4 C13'),
- 'C10': dict(technique='bounded-exhaustive symbolic execution (symrun + z3 as enumerator of solver-chosen listing layouts) of the real Tripoli-4 reader on synthetic listings built around ground truth; numbers are concrete tags',
-             text='PARTIAL. For every synthetic listing of the bound (1-2(3) spectrum responses, 1-3(4) energy groups, optional time steps / mu zones, '
-                  'every printing order per dimension, zero/negative special value at every cell) the datasets returned by Parser(...).to_browser() carry '
-                  'each printed score in the cell of its printed boundaries, error = value*sigma%/100 and increasing bins. The pyparsing/float() front end '
-                  'runs concretely (it cannot be executed symbolically); the Apollo3/HDF5 clause of the property is NOT covered.',
-             note='Trusted base: the listing generator (layouts copied from a shipped listing). Not covered: Apollo3 HDF5 reader/picker (h5py, C library), '
-                  'mesh/keff/IFP/sensitivity layouts. The solver only chooses the layout: this is enumeration within the bound, stated as such.',
-             design='DESIGN.md section 4 C10 and section 5'),
+ 'C10': dict(technique='bounded-exhaustive symbolic execution (symrun + z3 as enumerator of solver-chosen file layouts) of the real Tripoli-4 reader on synthetic listings and of the real Apollo3 Reader/Picker on synthetic HDF5 files, both built around ground truth; numbers are concrete tags',
+             text='PARTIAL. Tripoli-4: for every synthetic listing of the bound (1-2(3) spectrum responses, 1-3(4) energy groups, optional time steps / mu '
+                  'zones, every printing order per dimension, zero/negative special value at every cell) the datasets returned by '
+                  'Parser(...).to_browser() carry each printed score in the cell of its printed boundaries, error = value*sigma%/100 and increasing bins. '
+                  'Apollo3: for every standard-layout HDF5 file of the bound (1-2 outputs, 1-2 groups, 1-2 zones, every per-output isotope list over 3 '
+                  'isotopes) Reader(...).to_browser() and every single Picker pick return the stored arrays under the right labels. The pyparsing / float() / '
+                  'h5py front ends run concretely (they cannot be executed symbolically): the solver only chooses the layout.',
+             note='Trusted base: the listing / HDF5 generators (layouts copied from a shipped listing and from the documented Apollo3 data model). '
+                  'Not covered: mesh/keff/IFP/sensitivity layouts, other Apollo3 data models. Enumeration within the bound, stated as such.',
+             design='DESIGN.md section 4 C10, section 5 and 9.5'),
  'C11': dict(technique='bounded-exhaustive symbolic execution (symrun + z3 enumerating a symbolic cut offset) of the real Scanner/Parser on shipped listings truncated at every byte of the stated ranges',
              text='For EVERY byte offset of the parallel-mode example listing and every byte of every scanner-interpreted line of two sequential listings: '
                   'Scanner raises only ScannerException, Parser() only ParserException, never hangs (60 s alarm); at sampled offsets the last complete '
